@@ -296,8 +296,21 @@ func corpus() []*Scenario {
 	addWS("handler fails", false, sv, peer("elem", false, true, ""), cl)
 	addWS("deadline passes after Close", true, sv, Actor{Kind: "setdeadline", Past: true}, cl, Actor{Kind: "probe"})
 	addWS("default IQ reply, then close", true, sv, peer("elem", true, false, "iq"), peer("close", false, false, ""))
-	add("real deadline", true, sv, Actor{Kind: "setdeadline"}, cl, Actor{Kind: "timer"}, Actor{Kind: "probe"})
-	add("real deadline, no deadlines on the transport", false, sv, Actor{Kind: "setdeadline"}, Actor{Kind: "timer"}, peer("elem", false, false, ""))
+	add("real deadline", true, sv, Actor{Kind: "setdeadline"}, cl, Actor{Kind: "timer", For: 1}, Actor{Kind: "probe"})
+	add("real deadline, no deadlines on the transport", false, sv, Actor{Kind: "setdeadline"}, Actor{Kind: "timer", For: 1}, peer("elem", false, false, ""))
+	// the deadline is state that every call replaces
+	sd, far, past, zero := Actor{Kind: "setdeadline"}, Actor{Kind: "setdeadline"}, Actor{Kind: "setdeadline", Past: true}, Actor{Kind: "setdeadline", Zero: true}
+	for _, dl := range []bool{true, false} {
+		add("deadline extended: the first one passes, the peer sends a stanza and closes", dl, sv, sd, far, Actor{Kind: "timer", For: 1}, peer("elem", false, false, ""), peer("close", false, false, ""), Actor{Kind: "probe"})
+		add("deadline extended after Close, peer replies are refused, then closes", dl, sv, sd, cl, far, Actor{Kind: "timer", For: 1}, peer("elem", false, false, ""), peer("close", false, false, ""))
+		add("deadline shortened: the second one passes", dl, sv, far, sd, Actor{Kind: "timer", For: 2}, peer("elem", false, false, ""), Actor{Kind: "probe"})
+		add("deadline cleared with the zero time: the first one passes unnoticed", dl, sv, sd, zero, Actor{Kind: "timer", For: 1}, peer("elem", false, false, ""), peer("close", false, false, ""))
+		add("the zero time alone is no deadline", dl, sv, zero, peer("elem", false, false, ""), peer("close", false, false, ""), Actor{Kind: "probe"})
+		add("a passed deadline replaced by a later one before Serve looks", dl, past, far, sv, peer("elem", false, false, ""), peer("close", false, false, ""))
+		add("a passed deadline replaced by the zero time", dl, sv, peer("elem", false, false, ""), past, zero, peer("close", false, false, ""))
+		add("a later deadline replaced by one that has passed", dl, sv, far, past, peer("elem", false, false, ""), Actor{Kind: "probe"})
+		add("three calls: short, extended, short again, which passes", dl, sv, sd, far, Actor{Kind: "setdeadline"}, Actor{Kind: "timer", For: 3}, peer("elem", false, false, ""), Actor{Kind: "probe"})
+	}
 	return out
 }
 
@@ -328,6 +341,9 @@ func exhaustiveSets() []*Scenario {
 	add(true, cl, cl, Actor{Kind: "send"})
 	add(true, sv, peer("close", false, false, ""), cl, Actor{Kind: "send"})
 	add(true, sv, peer("elem", false, true, ""), cl, Actor{Kind: "encodenf"})
+	add(true, sv, Actor{Kind: "setdeadline", Past: true}, Actor{Kind: "setdeadline"}, peer("close", false, false, ""))
+	add(false, sv, Actor{Kind: "setdeadline", Past: true}, Actor{Kind: "setdeadline", Zero: true}, peer("elem", false, false, ""))
+	add(true, sv, Actor{Kind: "setdeadline"}, Actor{Kind: "setdeadline", Past: true}, peer("elem", false, false, ""))
 	addWS := func(dl bool, as ...Actor) {
 		out = append(out, &Scenario{Mode: "forced", DLSup: dl, WS: true, Actors: as, Note: "enumerated, websocket"})
 	}
@@ -378,8 +394,18 @@ func randomScenario(r *hx.Rand) *Scenario {
 			as = append(as, Actor{Kind: "probe"})
 		}
 	}
-	if r.Chance(1, 3) {
-		as = append(as, Actor{Kind: "setdeadline", Past: r.Chance(2, 3)})
+	// SetCloseDeadline any number of times: later, already passed, zero time
+	if r.Chance(2, 5) {
+		for n := 1 + r.Intn(3); n > 0; n-- {
+			switch r.Intn(4) {
+			case 0, 1:
+				as = append(as, Actor{Kind: "setdeadline", Past: true})
+			case 2:
+				as = append(as, Actor{Kind: "setdeadline"})
+			default:
+				as = append(as, Actor{Kind: "setdeadline", Zero: true})
+			}
+		}
 	}
 	if len(as) == 0 {
 		as = append(as, Actor{Kind: "close"})
@@ -394,6 +420,9 @@ func randomScenario(r *hx.Rand) *Scenario {
 	return sc
 }
 
+// timerScenario: one SetCloseDeadline call with a short real deadline that
+// passes during the scenario, among other calls that extend, shorten (a time
+// already passed) or clear it, with the peer acting in between.
 func timerScenario(r *hx.Rand) *Scenario {
 	sc := randomScenario(r)
 	var as []Actor
@@ -410,7 +439,31 @@ func timerScenario(r *hx.Rand) *Scenario {
 	if !hasServe {
 		as = append(as, Actor{Kind: "serve"})
 	}
-	as = append(as, Actor{Kind: "setdeadline"}, Actor{Kind: "timer"})
+	if r.Chance(2, 3) {
+		as = append(as, peer("elem", r.Chance(1, 3), false, ""))
+	}
+	if r.Chance(1, 2) {
+		as = append(as, peer("close", false, false, ""))
+	}
+	for n := r.Intn(3); n > 0; n-- {
+		switch r.Intn(3) {
+		case 0:
+			as = append(as, Actor{Kind: "setdeadline"}) // far away
+		case 1:
+			as = append(as, Actor{Kind: "setdeadline", Zero: true})
+		default:
+			as = append(as, Actor{Kind: "setdeadline", Past: true})
+		}
+	}
+	for i := len(as) - 1; i > 0; i-- {
+		j := r.Intn(i + 1)
+		as[i], as[j] = as[j], as[i]
+	}
+	// the short one goes to a random place, its timer to the end (the index it
+	// refers to must not move any more)
+	at := r.Intn(len(as) + 1)
+	as = append(as[:at:at], append([]Actor{{Kind: "setdeadline"}}, as[at:]...)...)
+	as = append(as, Actor{Kind: "timer", For: at})
 	sc.Actors = as
 	sc.Note = "real deadline"
 	return sc
@@ -549,9 +602,9 @@ func main() {
 			x.stallProbes()
 		}
 	} else {
-		nEnum, nRand, nFree, nTimer, nRace := 90, 1800, 250, 4, 12
+		nEnum, nRand, nFree, nTimer, nRace := 90, 1800, 250, 30, 12
 		if o.Thorough() {
-			nEnum, nRand, nFree, nTimer, nRace = 1200, 18000, 3000, 60, 100
+			nEnum, nRand, nFree, nTimer, nRace = 1200, 18000, 3000, 200, 100
 			grace = 5 * 1000 * 1000
 		}
 		if o.Search {
@@ -584,7 +637,8 @@ func main() {
 	}
 	res.Rule = "forced schedules over the yield points of session.go: a built-in corpus run in order; every schedule (up to a cap) of 24 small actor sets (5 of them on WebSocket-subprotocol sessions); " +
 		"random sets of 1-12 actors, a quarter of them on sessions negotiated by websocket.NewSession (Close x0-2, transmitters of every family and API, Serve with a peer script of elements/close/stream error/bad input, " +
-		"SetCloseDeadline, token-reader probe) under random schedules; real-timer scenarios; free-running concurrent scenarios (oracle only); " +
+		"SetCloseDeadline called 0-3 times with a later time / a time already passed / the zero time, token-reader probe) under random schedules; " +
+		"real-timer scenarios (one call with a short real deadline that passes during the scenario, while other calls extend, shorten or clear it and the peer acts in between); free-running concurrent scenarios (oracle only); " +
 		"stall probes: the peer stops reading while Close / sendError / Serve's shutdown writes the closing element and Serve, SetCloseDeadline or State need the session state (oracle only; every forced scenario also asks, at each connection write, whether the state mutex is locked). " +
 		"distinct = hash of actors + realised decisions; non-trivial = the scenario contains a Close caller or Serve"
 	res.CaseFiles = append(res.CaseFiles, x.cf.Write(o.Out, 300)...)
